@@ -231,9 +231,10 @@ class Element(ElementOfUnknownGroup):
         sum_element = ElementOfUnknownGroup.add(self, other)
         if sum_element is Zero:
             return sum_element
-        if isinstance(other, Element):
-            # adding two subgroup elements results in another subgroup
-            # element, or Zero, and we've already excluded Zero
+        if isinstance(other, Element) or other is Zero:
+            # adding two subgroup elements (or a subgroup element and Zero)
+            # results in another subgroup element, or Zero, and we've
+            # already excluded Zero
             return Element(sum_element.XYTZ)
         # not necessarily a subgroup member, so assume not
         return sum_element
